@@ -36,7 +36,7 @@ COQ_IMPORTS = 'From VRP Require Import Base.Tac Model.Gsom Model.SlotF Model.Gso
 MODEL_TARGETS = ['theories/Model/GsomF.vo']
 MODEL_NEEDS_IMPL = True
 SHARD = 8
-SIZES = {'quick': 260, 'thorough': 2600, 'search': 500}
+SIZES = {'quick': 200, 'thorough': 2600, 'search': 400}
 SEARCH_ROUNDS = 2
 RULE = ('cases: (wnet, ~55%) the real gsom::Network built from 4-30 individuals of dimension 1-4 whose weights are f64 bit patterns of '
         'seven families (small integers, dyadic k/8, arbitrary mantissas, exponents 2^-40..2^40, denormals, constant/duplicated vectors, '
@@ -187,7 +187,7 @@ def gen_wnet(rng, tier):
             if rng.chance(1, 2):
                 ops.append({'op': 'smooth', 'count': 1})
     # a third of the small cases: the EXACT instance replays every store_batch on its own (decisions compared where margins allow)
-    qdec = dim <= 3 and ln <= 12 and fam != 'huge' and rng.chance(1, 3)
+    qdec = dim <= (2 if tier == 'quick' else 3) and ln <= 12 and fam != 'huge' and rng.chance(1, 3)
     return {'kind': 'wnet', 'seed': rng.below(1 << 30), 'cfg': cfg, 'data': data, 'ops': ops, 'family': fam, 'dim': dim, 'qdec': qdec}
 
 
